@@ -281,34 +281,11 @@ def r13_5(ctx):
         r.ok({"budget derives from": sorted(srcs)})
     else:
         r.violate(b.name, "def:budget", b.where(0), "window budget does not depend on %s (depends on %s)" % (sorted(need - srcs), sorted(srcs)))
-    # the in-flight amount subtracted from the window is read AFTER the retransmit phase has put chunks back in
-    # flight: no write of flight_size lies between that read and the budget computation
-    fw = [x[0] for op in ("fetch_add", "fetch_sub", "store", "fetch_update", "swap") for x in core.atomic_sites(b, "flight_size", op)]
-    avail = None
-    for bi, t, p in b.calls():
-        if p and p.endswith("saturating_sub") and len(t["a"]) == 2 and "p" not in t["dst"] and b.locals[t["dst"]["l"]].get("n") == "available":
-            avail = (bi, t)
-    if avail is None:
-        raise core.CheckerError("R13.5: `available = effective_window.saturating_sub(in flight)` not found")
-    abi, at = avail
-    from engine import layout as _layout
-    root = _layout._root(b, at["a"][1])
-    lb = None
-    if root is not None:
-        ds = b.defs().get(root, [])
-        if len(ds) == 1 and ds[0][0] == "t":
-            lb = ds[0][1]
-    if lb is None or not core.is_atomic_load(b.term_call(b.blocks[lb]["t"]), "flight_size"):
-        r.violate(b.name, "budget:flight", b.where(abi), "the amount subtracted from the effective window is not a load of flight_size")
-    else:
-        between = [w for w in fw if w in core.reach_from(b, lb) and abi in core.reach_from(b, w)]
-        if not between:
-            r.ok({"site": b.where(abi), "in flight": "flight_size loaded at %s, no write of flight_size in between" % b.where(lb)})
-        else:
-            r.violate(b.name, "budget:stale-flight", b.where(abi),
-                      "the new-data budget subtracts a flight_size value read at %s, before the retransmit phase adds the retransmitted "
-                      "chunks back (%s): retransmissions are not counted against rwnd/cwnd and the window is overshot" %
-                      (b.where(lb), b.where(between[0])))
+    # (Until repair R13.12 the budget was bounded by the window through flight_size alone, and a sub-check here required
+    # that flight_size be read after the retransmit phase - a stale snapshot let retransmitted bytes escape the peer's
+    # window. Since the budget is bounded by peer_rwnd minus ALL unacknowledged bytes, a stale flight_size can only
+    # overshoot the congestion window, which C13 does not speak about: the sub-check demanded more than the property and
+    # was retired together with its seed, see findings/rejected_seeds/README.md.)
     # budget shrinks by the chunk size on every dequeue
     dec = False
     for bi, si, s in b.assigns():
@@ -552,8 +529,22 @@ def r13_10(ctx):
             continue
         n += 1
         a = w[0]
-        inner = a[1] if a[0] == "cast" else a
-        if core.is_atomic_load(inner, "peer_rwnd"):
+
+        def not_raised(x):
+            """x is the advertised window, or something that can only be SMALLER (saturating_sub / Sub of it, a min with it)"""
+            if core.is_atomic_load(x, "peer_rwnd"):
+                return True
+            if x[0] == "cast":
+                return not_raised(x[1])
+            if x[0] == "call" and x[1].endswith(("saturating_sub", "checked_sub", "wrapping_sub")) and x[2]:
+                return not_raised(x[2][0])
+            if x[0] == "bin" and x[1] in ("Sub", "SubUnchecked"):
+                return not_raised(x[2])
+            if x[0] == "call" and x[1].endswith("::min") and len(x[2]) == 2:
+                hasw = [y for y in x[2] if mir.has(y, lambda z: core.is_atomic_load(z, "peer_rwnd"))]
+                return bool(hasw) and all(not_raised(y) for y in hasw)
+            return False
+        if not_raised(a):
             r.ok({"site": b.where(bi), "window term": mir.show(a, 80)})
         else:
             r.violate(fn, "rwnd:modified", b.where(bi),
@@ -598,5 +589,38 @@ def r13_11(ctx):
     return r
 
 
+def r13_12(ctx):
+    """'The sender stops injecting new data once the receiver's advertised window is exhausted (beyond a single packet)':
+    what uses up the peer's window is everything it has not acknowledged - in flight or not. flight_size is a congestion
+    quantity: a T3 expiry zeroes it and puts only a burst of chunks back, the rest waits (unacknowledged, not in flight).
+    A budget of min(cwnd, rwnd) - flight_size therefore admits one more NEW chunk per T3 cycle while nothing is being
+    acknowledged, without bound (reproduced: rwnd 8192, six expiries -> 13 KB outstanding). Decided: the new-data
+    budget of transmit() is also bounded by peer_rwnd minus the bytes of all unacknowledged records of the sent queue."""
+    r = RuleResult("R13.12", "K6/dataflow", "the new-data budget is bounded by the advertised window minus everything unacknowledged")
+    b = ctx.body(S + "transmit::{closure#0}")
+    r.scope.append(b.name)
+    bl = [i for i, l in enumerate(b.locals) if l.get("n") == "budget"]
+    if not bl:
+        raise core.CheckerError("R13.12: variable budget not found")
+    terms = core.expand_vars(b, ("var", "budget", bl[0]), depth=2) + b.var_def_terms(bl[0])
+
+    def outstanding_bound(x):
+        if x[0] == "call" and x[1].endswith(("saturating_sub", "checked_sub")) and len(x[2]) == 2:
+            a, c = x[2]
+        elif x[0] == "bin" and x[1] in ("Sub", "SubUnchecked"):
+            a, c = x[2], x[3]
+        else:
+            return False
+        return mir.has(a, lambda z: core.is_atomic_load(z, "peer_rwnd")) and not mir.has(a, lambda z: core.is_atomic_load(z, "cwnd_tx")) and \
+            mir.has(c, lambda z: z[0] == "call" and z[1].endswith("::sum")) and mir.has_field(c, "sent_queue")
+    if any(mir.has(t, outstanding_bound) for t in terms):
+        r.ok({"budget": "min(.., peer_rwnd - sum of unacknowledged bytes in the sent queue)"})
+    else:
+        r.violate(b.name, "budget:ignores-outstanding", b.where(0),
+                  "the new-data budget is judged against flight_size only: after a T3 expiry (flight_size reset, most chunks waiting for their "
+                  "turn) each cycle admits another new chunk into a window the peer has not re-opened")
+    return r
+
+
 def run(ctx):
-    return [r13_1(ctx), r13_2(ctx), r13_3(ctx), r13_4(ctx), r13_5(ctx), r13_6(ctx), r13_7(ctx), r13_8(ctx), r13_9(ctx), r13_10(ctx), r13_11(ctx)]
+    return [r13_1(ctx), r13_2(ctx), r13_3(ctx), r13_4(ctx), r13_5(ctx), r13_6(ctx), r13_7(ctx), r13_8(ctx), r13_9(ctx), r13_10(ctx), r13_11(ctx), r13_12(ctx)]
